@@ -15,7 +15,7 @@ import (
 )
 
 // mutators applied by the handler of the first request (the "history")
-const zzNumMutators = 30
+const zzNumMutators = 33
 
 func zzMutate(c context.Context, ctx *app.RequestContext, m int, v []byte) {
 	s := string(v)
@@ -80,6 +80,13 @@ func zzMutate(c context.Context, ctx *app.RequestContext, m int, v []byte) {
 		ctx.Request.SetOptions()
 	case 29:
 		ctx.Response.ImmediateHeaderFlush = true
+	case 30:
+		ctx.Response.SetBodyRaw(append([]byte("raw"), v...))
+	case 31:
+		_ = ctx.QueryArgs().Len() // parse the query (it contains a key without value)
+		_ = ctx.PostArgs().Len()
+	case 32:
+		ctx.Request.SetBodyRaw(append([]byte("rawreq"), v...))
 	}
 }
 
@@ -148,6 +155,20 @@ func zzDump(ctx *app.RequestContext) []byte {
 	flag("resp-close", ctx.Response.ConnectionClose())
 	flag("resp-bodystream", ctx.Response.IsBodyStream())
 	flag("hijackwriter", ctx.Response.GetHijackWriter() != nil)
+	// exercise slot reuse: add one entry to every key/value list and serialise it
+	qa := ctx.QueryArgs()
+	qa.Add("next", "/home")
+	add("query-after-add", qa.QueryString())
+	pa := ctx.PostArgs()
+	pa.Add("pn", "pv")
+	add("post-after-add", pa.QueryString())
+	ctx.Request.Header.Add("X-New", "nv")
+	add("reqheader-after-add", ctx.Request.Header.Header())
+	ctx.Response.Header.Add("X-New", "nv")
+	ctx.Response.Header.SetNoDefaultDate(true)
+	add("respheader-after-add", ctx.Response.Header.Header())
+	ctx.Request.Header.SetCookie("nc", "nv")
+	add("reqcookie-after-add", ctx.Request.Header.Peek("Cookie"))
 	return b
 }
 
@@ -166,7 +187,7 @@ func ZZ_C09_H1() {
 	run := func(withHistory bool) (dump []byte, out []byte) {
 		wire := []byte(zzProbe)
 		if withHistory {
-			wire = append([]byte("POST /first?a=b HTTP/1.1\r\nHost: f\r\nCookie: s=1\r\nContent-Length: 3\r\n\r\nabc"), wire...)
+			wire = append([]byte("POST /first?a=b&debug HTTP/1.1\r\nHost: f\r\nCookie: s=1; novalue\r\nContent-Type: application/x-www-form-urlencoded\r\nContent-Length: 7\r\n\r\nabc&f=1"), wire...)
 		}
 		nc := zz.NewNetConn(wire)
 		n := 0
